@@ -10,9 +10,20 @@ import ast
 import json
 from pathlib import Path
 
+import os
 from common import LEAN, REPO, lean_file
 
-GEN = LEAN / "Generated"
+# one directory per process: concurrent checks (other properties, other CE_REPO trees) must never see each other's tables
+GEN = LEAN / "Generated" / f"run-{os.getpid()}"
+
+
+def _cleanup():
+    import shutil
+    shutil.rmtree(GEN, ignore_errors=True)
+
+
+import atexit
+atexit.register(_cleanup)
 CMI = "causationentropy/core/information/conditional_mutual_information.py"
 MI = "causationentropy/core/information/mutual_information.py"
 DISC = "causationentropy/core/discovery.py"
@@ -266,7 +277,7 @@ def utils_tables():
 
 def generate():
     """Regenerate Generated/Tables.lean. Returns (tables dict, list of notes)."""
-    GEN.mkdir(exist_ok=True)
+    GEN.mkdir(parents=True, exist_ok=True)
     notes = []
     tabs = {}
     parts = ["import CEModel.Dispatch\nimport CEModel.GraphUtils\n/-! GENERATED from /repo by harness/gen_tables.py -- do not edit. -/\nnamespace Generated\n"]
